@@ -1,6 +1,7 @@
 import Vanguard.Model.Basic
 import Vanguard.Model.Codes
 import Vanguard.Model.Percent
+import Vanguard.Model.Timeout
 /-!
   Line protocol: one operation per line, `op arg …` (byte strings in hex, `-` = empty,
   numbers in decimal); one canonical result per line.  The Go harness prints the
@@ -22,6 +23,16 @@ def withHex (s : String) (f : Bytes → String) : String :=
   | some b => f b
   | none => "bad-arg"
 
+def withInt (s : String) (f : Int → String) : String :=
+  match s.toInt? with
+  | some k => f k
+  | none => "bad-arg"
+
+def showExtracted : Extracted → String
+  | none => "reject"
+  | some none => "none"
+  | some (some d) => s!"some {d}"
+
 def dispatch : List String → String
   | ["status_from_rpc", n] => match n.toNat? with
       | some k => optNat (httpStatusFromRPC k)
@@ -31,6 +42,18 @@ def dispatch : List String → String
       | none => "bad-arg"
   | ["pct_enc", h] => withHex h fun b => toHex (grpcPercentEncode b)
   | ["pct_dec", h] => withHex h fun b => optBytes (grpcPercentDecode b)
+  | ["parse_int64", h] => withHex h fun b => match parseInt64 b with
+      | some n => s!"ok {n}"
+      | none => "err"
+  | ["format_int", n] => withInt n fun k => toHex (formatInt k)
+  | ["grpc_dec", h] => withHex h fun b => match grpcDecodeTimeout b with
+      | .ok d => s!"ok {d}"
+      | .noTimeout => "notimeout"
+      | .err => "err"
+  | ["grpc_extract", h] => withHex h fun b => showExtracted (grpcExtractTimeout b)
+  | ["grpc_enc", n] => withInt n fun k => toHex (grpcEncodeTimeout k)
+  | ["connect_extract", h] => withHex h fun b => showExtracted (connectExtractTimeout b)
+  | ["connect_enc", n] => withInt n fun k => toHex (connectEncodeTimeout k)
   | _ => "bad-op"
 
 end Vanguard.Driver
